@@ -245,6 +245,11 @@ func main() {
 		}
 		return fmt.Sprint("key-", i)
 	}, freshString, nil}, seed, nops)
+	// string keys that share memory: prefixes of one backing string start at the same address and differ only in
+	// length; suffixes end at the same address.  A comparison short-cut on the data pointer would merge them
+	backing := "a/rather/long/path/with/many/segments/that/keeps/going/and/going/until/it/is/long/enough"
+	runType(spec[string]{"string (prefix slices of one string)", func(i int) string { return backing[:i+1] }, freshString, nil}, seed, nops)
+	runType(spec[string]{"string (suffix slices of one string)", func(i int) string { return backing[len(backing)-1-i:] }, freshString, nil}, seed, nops)
 	runType(spec[int]{"int", func(i int) int { return i*7919 - 3 }, func(k int) int { return k }, nil}, seed, nops)
 	runType(spec[int8]{"int8", func(i int) int8 { return int8(i - 20) }, func(k int8) int8 { return k }, nil}, seed, nops)
 	runType(spec[int16]{"int16", func(i int) int16 { return int16(i*300 - 7) }, func(k int16) int16 { return k }, nil}, seed, nops)
